@@ -25,8 +25,9 @@ template <class M> struct MakeMap<M, 2> { // stride: extents + strides
   template <class E, class S> static M make(const E &e, const S &s, i128, int) { return M(e, s); }
 };
 template <class M> struct MakeMap<M, 3> { // padded: extents [+ run-time padding value]
-  template <class E, class S> static M make(const E &e, const S &, i128 dpv, int ctor) {
+  template <class E, class S> static M make(const E &e, const S &s, i128 dpv, int ctor) {
     using T = typename M::index_type;
+    if (ctor == 4) return M(Kokkos::layout_stride::mapping<E>(e, s));   // converted from a layout_stride mapping
     return ctor == 2 ? M(e, static_cast<T>(dpv)) : M(e);
   }
 };
@@ -42,7 +43,7 @@ template <class M, int LAY> M read_mapping(Toks &tk) {
   int ctor = (int)tk.next_l();
   std::array<T, R> ev{}; for (size_t k = 0; k < R; ++k) ev[k] = static_cast<T>(tk.next_i());
   std::array<T, R> sv{};
-  if (lay == 2) for (size_t k = 0; k < R; ++k) sv[k] = static_cast<T>(tk.next_i());
+  if (lay == 2 || ctor == 4) for (size_t k = 0; k < R; ++k) sv[k] = static_cast<T>(tk.next_i());
   i128 dpv = 0; if (ctor == 2) dpv = tk.next_i();
   if (ctor == 3) return M();                       // default construction: the values on the line are what it must yield
   E e(ev);
